@@ -259,13 +259,17 @@ func decodeBlindedPaths(r io.Reader, val any, buf *[8]byte, l uint64) error {
 
 	lr := &io.LimitedReader{R: r, N: int64(l)}
 
+	// The paths are collected apart from the target, which may already
+	// hold paths: what is decoded is a function of the record alone.
+	var paths []BlindedPath
 	for lr.N > 0 {
 		var p BlindedPath
 		if err := readBlindedPath(lr, &p, buf); err != nil {
 			return err
 		}
-		bp.Paths = append(bp.Paths, p)
+		paths = append(paths, p)
 	}
+	bp.Paths = paths
 
 	return nil
 }
